@@ -303,9 +303,31 @@ class Interp:
                 idx = self.eval(t.slice, env)
                 if self.is_copy_index(base, idx):
                     raise Unsupported('in-place operator through fancy/mask index')
+                if isinstance(base, SObj):
+                    # obj[key] op= v  ==  tmp = obj[key]; tmp op= v; obj[key] = tmp
+                    self.call_method(base, '__setitem__', [idx, cur], {})
             return
         if isinstance(cur, SCompact):
-            raise Unsupported('in-place operator through mask index')
+            # a[mask] op= rhs  (rhs scalar or a compaction over the same mask)
+            if not isinstance(t, ast.Subscript):
+                raise Unsupported('in-place operator on a compaction')
+            base = self.eval(t.value, env)
+            mask = cur.mask
+            if not isinstance(base, SArr) or base.ndim != 1:
+                raise Unsupported('in-place operator through mask on non-1d array')
+            if isinstance(rhs, SCompact):
+                if rhs.mask is not mask:
+                    raise Unsupported('in-place mask operands over different masks')
+                rv = rhs.val
+            elif isinstance(rhs, SArr):
+                raise Unsupported('in-place mask operator with full array rhs')
+            else:
+                rv = lambda i: rhs
+            mget = cur.mget
+            fp = self.ctx.fp
+            npm.arr_write(self.ctx, base, lambda i: mget(i), lambda i: rv(i),
+                          lambda o, v: scalar_arith(op, o, v, fp))
+            return
         if isinstance(cur, SObj):
             r = self.call_method(cur, {'+': '__iadd__', '-': '__isub__', '*': '__imul__',
                                        '/': '__itruediv__'}[op], [rhs], {})
@@ -327,6 +349,12 @@ class Interp:
         fp = self.ctx.fp
         if isinstance(rhs, SCompact):
             raise Unsupported('in-place op with compaction rhs')
+        if isinstance(rhs, SArr) and arr.ndim == 2 and rhs.ndim == 1:
+            npm.shape_eq(self.ctx, (arr.shape[1],), rhs.shape, 'in-place broadcast shape')
+            rget = self.frozen_getter(rhs)
+            npm.arr_write(self.ctx, arr, None, lambda i, j: rget(j),
+                          lambda o, v: scalar_arith(op, o, v, fp))
+            return
         if isinstance(rhs, SArr):
             npm.shape_eq(self.ctx, arr.shape, rhs.shape, 'in-place operand shape')
             # rhs may alias the target: freeze its current element function
@@ -352,6 +380,12 @@ class Interp:
         elif isinstance(t, ast.Attribute):
             base = self.eval(t.value, env)
             if isinstance(base, SObj):
+                if t.attr not in base.attrs:
+                    r = self.find_method(base, '__set__' + t.attr)
+                    if r is not None:
+                        mod, fn, cname = r
+                        self.invoke_user(mod, cname, fn, [base, v], {}, 'self.%s = ' % t.attr)
+                        return
                 base.attrs[t.attr] = v
             elif isinstance(base, SArr) and t.attr == 'flat':
                 raise Unsupported('.flat assignment')
@@ -530,6 +564,8 @@ class Interp:
     def st_For(self, s, env):
         key, fn = self.loop_key()
         it = self.eval(s.iter, env)
+        if isinstance(it, SObj):
+            it = self.call_method(it, '__iter__', [], {})
         conc = self.concrete_iter(it)
         invs = self.loop_invariants(key, fn)
         if conc is not None and invs is None:
@@ -916,7 +952,7 @@ class Interp:
         for i, x in enumerate(vals):
             v = self.eval(x, env)
             last = i == len(vals) - 1
-            if is_z3(v) or isinstance(v, bool):
+            if is_bool_term(v) or isinstance(v, bool):
                 if acc is None:
                     acc = v
                 else:
@@ -992,6 +1028,10 @@ class Interp:
         if isinstance(v, SArr):
             if v.ndim == 1 and isinstance(v.n, int) and v.n == 1:
                 return self.as_bool(v.get(0))
+            if v.ndim == 1 and not isinstance(v.n, int) and not self.pure:
+                # numpy: only a one-element array has a truth value
+                if self.ctx.branch(scalar_cmp('==', v.n, 1)):
+                    return self.as_bool(v.get(0))
             raise PyRaise('ValueError')
         raise Unsupported('truth value of %r' % (v,))
 
@@ -1440,6 +1480,10 @@ class Interp:
 
     def arr_setitem(self, a, idx, v):
         ctx = self.ctx
+        if isinstance(v, ArrFlat):
+            if v.arr.ndim != 1:
+                raise Unsupported('.flat of n-d array as value')
+            v = v.arr
         if isinstance(v, SCompact):
             raise Unsupported('store of compaction')
         if isinstance(v, (Opaque, SObj)) or v is None:
@@ -1781,6 +1825,7 @@ class Interp:
                 interp.old_env, interp.sizes, interp.ghost_env = saved_state[:3]
                 interp.frames = list(saved_state[3])
                 interp.pure += 1
+                interp.ctx.frozen_iterms += 1
                 try:
                     conds = [scalar_cmp('<=', lo, t), scalar_cmp('<', t, hi)]
                     for c in ifs:
@@ -1788,6 +1833,7 @@ class Interp:
                     body = interp.tr(elt, e2, -1)
                 finally:
                     interp.pure -= 1
+                    interp.ctx.frozen_iterms -= 1
                     interp.old_env, interp.sizes, interp.ghost_env, interp.frames = cur
                 r = z3.Implies(b2z(zand(*conds)), b2z(body))
                 cache[key] = (r, t)
